@@ -29,7 +29,9 @@ import (
 	"github.com/AdguardTeam/AdGuardDNS/internal/querylog"
 	"github.com/AdguardTeam/AdGuardDNS/verifh/hlib"
 	"github.com/AdguardTeam/AdGuardDNS/verifh/hlib/stack"
+	"github.com/AdguardTeam/golibs/container"
 	"github.com/AdguardTeam/golibs/logutil/slogutil"
+	"github.com/AdguardTeam/golibs/netutil"
 	"github.com/miekg/dns"
 	"github.com/prometheus/client_golang/prometheus"
 )
@@ -77,9 +79,10 @@ func (q sreq) msg() *dns.Msg {
 		m.SetEdns0(4096, true)
 		opt := m.IsEdns0()
 		opt.Option = append(opt.Option, &dns.EDNS0_COOKIE{Code: dns.EDNS0COOKIE, Cookie: fmt.Sprintf("%016x", uint64(q.v())*7919)})
-	case 3, 4:
+	case 3, 4, 5:
 		// The client sends its own subnet (EDNS Client Subnet); no two
-		// requests of a round send the same one.
+		// requests of a round send the same one.  Mode 5: it declines the
+		// use of its subnet (RFC 7871, 7.1.2: source prefix length 0).
 		m.SetEdns0(uint16(1400+int(q.v()%7)*100), q.EDNS == 4)
 		opt := m.IsEdns0()
 		opt.Option = append(opt.Option, q.ecs())
@@ -90,6 +93,9 @@ func (q sreq) msg() *dns.Msg {
 
 // ecs is the EDNS Client Subnet option of q (EDNS modes 3 and 4).
 func (q sreq) ecs() *dns.EDNS0_SUBNET {
+	if q.EDNS == 5 {
+		return &dns.EDNS0_SUBNET{Code: dns.EDNS0SUBNET, Family: 1, SourceNetmask: 0, Address: net.IP{0, 0, 0, 0}}
+	}
 	if q.EDNS%2 == 1 {
 		return &dns.EDNS0_SUBNET{Code: dns.EDNS0SUBNET, Family: 1, SourceNetmask: 24,
 			Address: net.IP{100, byte(64 + q.Client), byte(q.v()), 0}}
@@ -194,9 +200,33 @@ func upstream(f *fixture) dnsserver.Handler {
 		// Names are case-insensitive; the question is echoed as it was asked,
 		// the records carry the canonical name.
 		q.Name = strings.ToLower(q.Name)
-		h := nameHash(q.Name)
+		hn := nameHash(q.Name)
+		// h is what the records are made of.  An upstream that tailors its
+		// answers (the fixture's, when ecsDep is set) makes the records of
+		// half of the names a function of the client subnet it is sent, and
+		// says so in the scope of the subnet it echoes.
+		h := hn
+		if o := req.IsEdns0(); o != nil && f.ecsDep && hn%2 == 0 {
+			for _, x := range o.Option {
+				if sn, ok := x.(*dns.EDNS0_SUBNET); ok && sn.SourceNetmask > 0 {
+					h = hn ^ nameHash(fmt.Sprintf("%s/%d", sn.Address, sn.SourceNetmask))*2
+					f.count("upstream.answer-tailored-to-subnet")
+				}
+			}
+		}
 		resp := (&dns.Msg{}).SetReply(req)
 		resp.RecursionAvailable = true
+		if neg := strings.HasPrefix(q.Name, "nx.") || strings.HasPrefix(q.Name, "nodata."); neg {
+			// Negative answers: the SOA in the authority section is what makes
+			// them cacheable (and the SOA is a pooled structure of the cloner).
+			if strings.HasPrefix(q.Name, "nx.") {
+				resp.Rcode = dns.RcodeNameError
+			}
+			resp.Ns = append(resp.Ns, &dns.SOA{Hdr: dns.RR_Header{Name: "example.", Rrtype: dns.TypeSOA, Class: dns.ClassINET, Ttl: 300},
+				Ns: "ns.example.", Mbox: "root.example.", Serial: hn, Refresh: 7200, Retry: 900, Expire: 86400, Minttl: 300})
+			q.Qtype = dns.TypeNone
+			f.count("upstream.negative-answer")
+		}
 		hdr := dns.RR_Header{Name: q.Name, Rrtype: q.Qtype, Class: dns.ClassINET, Ttl: 300}
 		switch q.Qtype {
 		case dns.TypeA:
@@ -225,11 +255,11 @@ func upstream(f *fixture) dnsserver.Handler {
 		}
 		// A validating upstream: a quarter of the names are signed; the
 		// signature is sent to those who ask for it.
-		resp.AuthenticatedData = h%4 == 0
-		if o := req.IsEdns0(); o != nil && o.Do() && h%4 == 0 && len(resp.Answer) > 0 {
+		resp.AuthenticatedData = hn%4 == 0
+		if o := req.IsEdns0(); o != nil && o.Do() && hn%4 == 0 && len(resp.Answer) > 0 {
 			resp.Answer = append(resp.Answer, &dns.RRSIG{Hdr: dns.RR_Header{Name: q.Name, Rrtype: dns.TypeRRSIG, Class: dns.ClassINET, Ttl: 300},
 				TypeCovered: q.Qtype, Algorithm: 13, Labels: 2, OrigTtl: 300, Expiration: 1900000000, Inception: 1700000000,
-				KeyTag: uint16(h), SignerName: "example.", Signature: "c2lnbmF0dXJl"})
+				KeyTag: uint16(hn), SignerName: "example.", Signature: "c2lnbmF0dXJl"})
 		}
 		if o := req.IsEdns0(); o != nil {
 			resp.SetEdns0(o.UDPSize(), o.Do())
@@ -239,7 +269,7 @@ func upstream(f *fixture) dnsserver.Handler {
 				if sn, ok := x.(*dns.EDNS0_SUBNET); ok {
 					echo := *sn
 					echo.SourceScope = 0
-					if h%2 == 0 {
+					if hn%2 == 0 {
 						echo.SourceScope = sn.SourceNetmask
 					}
 					ro := resp.IsEdns0()
@@ -287,6 +317,67 @@ type fixture struct {
 	// logPath != "": the production file-system query log writes there.
 	logPath    string
 	logEntries []*querylog.Entry
+	// ecsDep: the upstream tailors the records of half of the names to the
+	// client subnet it is sent (set by the campaigns that compute what a
+	// request gets alone on a stack with the same kind of cache).
+	ecsDep bool
+}
+
+// stackCounts are the distribution counters of the fakes (they are called from
+// many goroutines); main adds them to the result.
+var (
+	stackCountsMu sync.Mutex
+	stackCounts   = map[string]int{}
+)
+
+func (f *fixture) count(bucket string) {
+	stackCountsMu.Lock()
+	stackCounts[bucket]++
+	stackCountsMu.Unlock()
+}
+
+// geoSubnetFor is the subnet that the GeoIP database of the fixture gives for a
+// location: one per country and address family, so that the upstream sees where
+// a request comes from when the ECS cache sends the subnet of the location.
+func geoSubnetFor(l *geoip.Location, fam netutil.AddrFamily) (netip.Prefix, error) {
+	idx := byte(len(geoCountries))
+	for i, c := range geoCountries {
+		if l != nil && c == l.Country {
+			idx = byte(i)
+		}
+	}
+	if fam == netutil.AddrFamilyIPv6 {
+		return netip.PrefixFrom(netip.AddrFrom16([16]byte{0x20, 0x01, 0x0d, 0xb8, 0, idx}), 48), nil
+	}
+
+	return netip.PrefixFrom(netip.AddrFrom4([4]byte{198, 51, idx, 0}), 24), nil
+}
+
+// Names of the Discovery of Designated Resolvers fixture.
+const (
+	ddrPublicTarget = "dns.example"
+	ddrDeviceTarget = "d.dns.example"
+)
+
+// newDDR is the DDR configuration of the server group, as internal/cmd builds
+// it: record templates that are shared by all requests and copied into every
+// DDR response (the device ID of the client is put in front of the target).
+func newDDR(msgs *dnsmsg.Constructor) *agd.DDR {
+	v4 := []netip.Addr{netip.MustParseAddr("192.0.2.53"), netip.MustParseAddr("192.0.2.54")}
+	v6 := []netip.Addr{netip.MustParseAddr("2001:db8::53")}
+	d := &agd.DDR{Enabled: true, DeviceTargets: container.NewMapSet(ddrDeviceTarget), PublicTargets: container.NewMapSet(ddrPublicTarget)}
+	for i, proto := range []dnsserver.Protocol{dnsserver.ProtoDoT, dnsserver.ProtoDoH, dnsserver.ProtoDoQ} {
+		path := ""
+		if proto == dnsserver.ProtoDoH {
+			path = "/dns-query{?dns}"
+		}
+		d.PublicRecordTemplates = append(d.PublicRecordTemplates,
+			msgs.NewDDRTemplate(proto, ddrPublicTarget, path, v4, v6, uint16(853-i*410), uint16(i+1)))
+		d.DeviceRecordTemplates = append(d.DeviceRecordTemplates,
+			msgs.NewDDRTemplate(proto, ddrDeviceTarget, path, v4, nil, uint16(853-i*410), uint16(i+1)))
+	}
+
+	return d
 }
 
 // hookStages are the boundaries of the stack at which the fixture can hold a
@@ -497,7 +588,12 @@ func (f *fixture) identity(ctx context.Context, stage string, profile int, msg *
 }
 
 func newFixture(cache *dnssvc.CacheConfig, reqs map[uint16]sreq, logPath ...string) *fixture {
-	return newFixtureWith(cache, reqs, nil, false, logPath...)
+	f := newFixtureWith(cache, reqs, nil, false, logPath...)
+	// The simple cache is for deployments without subnet-dependent answers (its
+	// key has no subnet); with it the upstream answers by the question only.
+	f.ecsDep = cache == nil || cache.Type != dnssvc.CacheTypeSimple
+
+	return f
 }
 
 // newFixtureWith is newFixture with the production filters of real (if not
@@ -525,6 +621,9 @@ func newFixtureWith(cache *dnssvc.CacheConfig, reqs map[uint16]sreq, real *realF
 			Ratelimiter: agd.GlobalRatelimiter{}, ID: agd.ProfileID(fmt.Sprintf("prof%04d", i)),
 			DeviceIDs: []agd.DeviceID{devs[i].ID}, FilteredResponseTTL: time.Duration(10*(i+1)) * time.Second,
 			FilteringEnabled: true, QueryLogEnabled: true, IPLogEnabled: true,
+			// The policies for the special domains of the initial middleware
+			// differ between the profiles (anonymous clients: nothing blocked).
+			BlockFirefoxCanary: i%2 == 0, BlockPrivateRelay: i%2 == 1, BlockChromePrefetch: i < 2,
 		}
 	}
 	pdb := stack.NotFoundProfileDB()
@@ -612,7 +711,7 @@ func newFixtureWith(cache *dnssvc.CacheConfig, reqs map[uint16]sreq, real *realF
 		group = real.group
 	}
 	conf := &stack.Config{ProfileDB: pdb, FilterStorage: fs, Upstream: upstream(f), Cache: cache, Cloner: cl,
-		Servers: []*agd.Server{srv}, Messages: msgs, GroupFilterConfig: group,
+		Servers: []*agd.Server{srv}, Messages: msgs, GroupFilterConfig: group, GeoSubnet: geoSubnetFor,
 		GeoData: func(_ string, ip netip.Addr) (*geoip.Location, error) {
 			f.hook(clientOfIP(ip), "geoip")
 
@@ -653,6 +752,9 @@ func newFixtureWith(cache *dnssvc.CacheConfig, reqs map[uint16]sreq, real *realF
 	}
 	f.st = stack.New(conf)
 	f.cloner, f.srv = cl, srv
+	// The handlers read the DDR configuration through the server group on every
+	// request; nothing is served yet.
+	f.st.Group.DDR = newDDR(msgs)
 
 	return f
 }
@@ -865,14 +967,23 @@ func genStackReqs(rng *rand.Rand, nClients, perClient int) (streams [][]sreq) {
 	pool := []string{"blocked.example.", "p0-blocked.example.", "p1-blocked.example.", "p2-blocked.example.",
 		"p3-blocked.example.", "one.example.", "two.example.", "three.example.org.", "four.test.", "five.test.",
 		"cname.example.", "cname.example.", "rblock.example.", "allow.example.", "rewrite.example.", "One.Example.",
-		"accessblocked.example.", "ratelimited.example."}
+		"accessblocked.example.", "ratelimited.example.",
+		// Negative answers with an SOA; the special domains of the initial
+		// middleware, whose handling depends on the profile; Discovery of
+		// Designated Resolvers, answered from templates shared by all requests
+		// (for a recognised device with its ID in front of the target).
+		"nx.example.", "nodata.example.", "use-application-dns.net.", "mask.icloud.com.", "dns-tunnel-check.googlezip.net.",
+		"_dns.resolver.arpa.", "_dns.resolver.arpa.", "_dns.dns.example.", "_dns.dev00001.d.dns.example.", "bad.resolver.arpa."}
 	id := uint16(rng.IntN(1000))
 	for c := 0; c < nClients; c++ {
 		var s []sreq
 		for k := 0; k < perClient; k++ {
 			id++
-			q := sreq{Client: c, Name: pool[rng.IntN(len(pool))], ID: id, EDNS: rng.IntN(5),
+			q := sreq{Client: c, Name: pool[rng.IntN(len(pool))], ID: id, EDNS: rng.IntN(6),
 				Qtype: []uint16{dns.TypeA, dns.TypeAAAA, dns.TypeTXT, dns.TypeHTTPS, dns.TypeHTTPS}[rng.IntN(5)]}
+			if strings.HasPrefix(q.Name, "_dns.") && rng.IntN(4) > 0 {
+				q.Qtype = dns.TypeSVCB
+			}
 			if rng.IntN(10) == 0 {
 				q.Chaos, q.Qtype = true, dns.TypeTXT
 			}
@@ -1129,6 +1240,24 @@ func liveRound(r *hlib.Result, mode string, yieldSeed uint64, count bool, stream
 					kind = "allowed"
 				case strings.HasPrefix(host, "rewrite.") && q.Qtype == dns.TypeA:
 					kind = "rewritten-response"
+				case strings.HasPrefix(host, "nx.") || strings.HasPrefix(host, "nodata."):
+					kind = "negative-answer"
+				case strings.HasSuffix(host, ".resolver.arpa.") || strings.HasPrefix(host, "_dns."):
+					kind = "ddr-other"
+					if got[c][k] != "" && strings.Contains(got[c][k], "SVCB") {
+						kind = "ddr-public-records"
+						if strings.Contains(got[c][k], "dev0") {
+							kind = "ddr-device-records"
+						}
+					}
+				case host == "use-application-dns.net." || host == "mask.icloud.com." || host == "dns-tunnel-check.googlezip.net.":
+					kind = "special-domain-passed"
+					if strings.Contains(got[c][k], "rc=3") || strings.Contains(got[c][k], "rc=5") {
+						kind = "special-domain-blocked-by-profile"
+					}
+				}
+				if q.EDNS == 5 && count {
+					r.Count("stack.req.declined-client-subnet")
 				}
 				if q.Chaos {
 					kind += "+debug"
@@ -1184,19 +1313,31 @@ type aloneResult struct {
 	log []string
 }
 
-var aloneMemo = map[sreq]aloneResult{}
+type aloneKey struct {
+	q     sreq
+	cache dnssvc.CacheType
+}
 
-func alone(q sreq, reqs map[uint16]sreq) aloneResult {
-	if a, ok := aloneMemo[q]; ok {
+var aloneMemo = map[aloneKey]aloneResult{}
+
+// alone: the new stack has a (cold) cache of the same kind as the run that is
+// checked, since what the upstream is told about the client, and so what it
+// answers, depends on the kind of cache.
+func alone(q sreq, reqs map[uint16]sreq, cache *dnssvc.CacheConfig) aloneResult {
+	k := aloneKey{q: q}
+	if cache != nil {
+		k.cache = cache.Type
+	}
+	if a, ok := aloneMemo[k]; ok {
 		return a
 	}
-	f := newFixture(nil, reqs)
+	f := newFixture(cache, reqs)
 	got, err := f.serve(q)
 	if err != nil {
 		got = "ERROR " + err.Error()
 	}
 	a := aloneResult{got: got, log: logKey(f)}
-	aloneMemo[q] = a
+	aloneMemo[k] = a
 
 	return a
 }
@@ -1265,7 +1406,7 @@ func overlapCampaign(o *hlib.Opts, r *hlib.Result) {
 							if _, err := f.serve(q); err != nil {
 								r.Violate("stack-error-history", fmt.Sprintf("request %+v: %v", q, err), q)
 							}
-							wantLog = append(wantLog, alone(q, reqs).log...)
+							wantLog = append(wantLog, alone(q, reqs, cache.conf).log...)
 						}
 						f.parkStage, f.parkClient = stage, a.Client
 						f.parkedCh, f.resumeCh = make(chan struct{}), make(chan struct{})
@@ -1300,15 +1441,15 @@ func overlapCampaign(o *hlib.Opts, r *hlib.Result) {
 							r.Count("overlap.stage-not-passed")
 						}
 						r.Count("overlap.history=" + h.name)
-						wantLog = append(wantLog, alone(a, reqs).log...)
-						wantLog = append(wantLog, alone(b, reqs).log...)
+						wantLog = append(wantLog, alone(a, reqs, cache.conf).log...)
+						wantLog = append(wantLog, alone(b, reqs, cache.conf).log...)
 						sort.Strings(wantLog)
 						replay := map[string]any{"campaign": "stack-overlap", "cache": cache.name, "history": h.reqs, "held_request": a,
 							"held_at": stage, "served_meanwhile": b}
 						what := fmt.Sprintf("history %s, cache=%s: request %+v held at %s while %+v is served", h.name, cache.name, a, stage, b)
 						for i, q := range []sreq{a, b} {
 							got := []string{gotA, gotB}[i]
-							if w := alone(q, reqs).got; got != w {
+							if w := alone(q, reqs, cache.conf).got; got != w {
 								r.Violate("overlapped-response-differs-from-solo", fmt.Sprintf("%s: request %+v alone %q, here %q", what, q, w, got),
 									replay)
 							}
@@ -1361,7 +1502,7 @@ func stackCampaign(o *hlib.Opts, r *hlib.Result) {
 		var wantLog []string
 		for c, s := range streams {
 			for _, q := range s {
-				solo := newFixture(nil, reqs)
+				solo := newFixture(cache, reqs)
 				w, err := solo.serve(q)
 				if err != nil {
 					r.Violate("stack-error-solo", fmt.Sprintf("request %+v alone: %v", q, err), q)
